@@ -2382,7 +2382,12 @@ def r084(P, u, rep):
                     if cur is None or (cur[0] and not ok):
                         res[k] = [ok, msg, {'path': ctx.trail[-10:], 'alignment': fgot.text}]
         if fname == 'struct_members':
-            _flexible_array(rep, it, paths, where)
+            try:
+                from ..build import require_signature
+                require_signature(u, 'struct_members', ['Token **', 'Token *', 'Type *'], 'void')      # the struct is marked through the Type it is handed
+                _flexible_array(rep, it, paths, where)
+            except AnalysisBroken as e_:
+                rep.undecided('R08.3', '%s:struct_members:flexible-array-member' % PU, str(e_), where=where)
             _anonymous_member_guard(rep, it, paths, where)
         if broken and not res:
             rep.undecided('R08.4', '%s:%s:alignas' % (PU, fname), 'declaration site not interpretable: %s' % broken, where=where)
